@@ -8,13 +8,6 @@ Open Scope Z_scope.
 (* ------------------------------------------------------------------ *)
 (* character classes                                                    *)
 (* ------------------------------------------------------------------ *)
-Ltac cls_cases :=
-  unfold classify;
-  repeat match goal with
-         | |- context [?a =? ?b] => destruct (Z.eqb_spec a b)
-         | |- context [?a <=? ?b] => destruct (Z.leb_spec a b)
-         end; cbn [orb andb]; try reflexivity; try discriminate; try lia.
-
 Lemma cls_eqb_eq a b : cls_eqb a b = true <-> a = b.
 Proof. destruct a, b; cbn; split; intros H; try reflexivity; try discriminate. Qed.
 Lemma cls_eqb_refl a : cls_eqb a a = true.
@@ -22,24 +15,55 @@ Proof. destruct a; reflexivity. Qed.
 Lemma cls_eqb_neq a b : a <> b -> cls_eqb a b = false.
 Proof. destruct a, b; cbn; intros H; try reflexivity; exfalso; apply H; reflexivity. Qed.
 
+Definition dir_char (c : Z) : Prop := c = 60 \/ c = 62 \/ c = 43 \/ c = 45.
+
+Lemma b_stone c : (c =? 67) || (c =? 70) || (c =? 83) = true <-> stone_letter c.
+Proof. unfold stone_letter. rewrite !orb_true_iff, !Z.eqb_eq. tauto. Qed.
+Lemma b_range lo hi c : (lo <=? c) && (c <=? hi) = true <-> lo <= c <= hi.
+Proof. rewrite andb_true_iff, !Z.leb_le. tauto. Qed.
+Lemma b_dir c : (c =? 60) || (c =? 62) || (c =? 43) || (c =? 45) = true <-> dir_char c.
+Proof. unfold dir_char. rewrite !orb_true_iff, !Z.eqb_eq. tauto. Qed.
+
+(* the classes, decided sequentially as in the definition *)
+Lemma classify_cases c :
+  (stone_letter c /\ classify c = KStone) \/
+  (49 <= c <= 56 /\ classify c = KDigit) \/
+  (97 <= c <= 104 /\ classify c = KFile) \/
+  (dir_char c /\ classify c = KDir) \/
+  (~ stone_letter c /\ ~ 49 <= c <= 56 /\ ~ 97 <= c <= 104 /\ ~ dir_char c /\ classify c = KOther).
+Proof.
+  unfold classify.
+  destruct ((c =? 67) || (c =? 70) || (c =? 83)) eqn:E1.
+  { left. split; [apply b_stone; exact E1|reflexivity]. }
+  destruct ((49 <=? c) && (c <=? 56)) eqn:E2.
+  { right; left. split; [apply b_range; exact E2|reflexivity]. }
+  destruct ((97 <=? c) && (c <=? 104)) eqn:E3.
+  { right; right; left. split; [apply b_range; exact E3|reflexivity]. }
+  destruct ((c =? 60) || (c =? 62) || (c =? 43) || (c =? 45)) eqn:E4.
+  { right; right; right; left. split; [apply b_dir; exact E4|reflexivity]. }
+  right; right; right; right.
+  split; [intros H; apply b_stone in H; congruence|].
+  split; [intros H; apply b_range in H; congruence|].
+  split; [intros H; apply b_range in H; congruence|].
+  split; [intros H; apply b_dir in H; congruence|reflexivity].
+Qed.
+
+Ltac cls_cases c :=
+  let H := fresh "Hcase" in
+  destruct (classify_cases c) as [[? H]|[[? H]|[[? H]|[[? H]|(? & ? & ? & ? & H)]]]];
+  rewrite H; unfold stone_letter, dir_char in *.
+
 Lemma classify_file c : classify c = KFile <-> 97 <= c <= 104.
-Proof. split; [|intros H]; cls_cases. Qed.
+Proof. cls_cases c; split; intros; try discriminate; try lia; try reflexivity; try tauto. Qed.
 Lemma classify_digit c : classify c = KDigit <-> 49 <= c <= 56.
-Proof. split; [|intros H]; cls_cases. Qed.
+Proof. cls_cases c; split; intros; try discriminate; try lia; try reflexivity; try tauto. Qed.
 Lemma classify_stone c : classify c = KStone <-> stone_letter c.
-Proof. unfold stone_letter. split; [|intros H]; cls_cases. Qed.
+Proof. unfold stone_letter. cls_cases c; split; intros; try discriminate; try lia; try reflexivity; try tauto. Qed.
 Lemma classify_dir c : classify c = KDir <-> (c = 60 \/ c = 62 \/ c = 43 \/ c = 45).
-Proof. split; [|intros H]; cls_cases. Qed.
+Proof. cls_cases c; split; intros; try discriminate; try lia; try reflexivity; try tauto. Qed.
 Lemma classify_other c : classify c <> KOther <-> ptn_char c.
 Proof.
-  unfold ptn_char, stone_letter. split.
-  - intros H. destruct (classify c) eqn:E.
-    + apply classify_stone in E. left. exact E.
-    + apply classify_digit in E. right; left; exact E.
-    + apply classify_file in E. right; right; left; exact E.
-    + apply classify_dir in E. right; right; right. exact E.
-    + exfalso. apply H. reflexivity.
-  - intros H E. revert E. cls_cases.
+  unfold ptn_char. cls_cases c; split; intros; try discriminate; try lia; try tauto; try congruence.
 Qed.
 
 (* ------------------------------------------------------------------ *)
@@ -154,4 +178,736 @@ Proof.
   - destruct H6 as [|c l Hc Hl]; cbn [app hdc].
     + rewrite (hdc_app_olist KStone) by exact H7. destruct tr; cbn [hdc]; discriminate.
     + rewrite Hc. discriminate.
+Qed.
+
+Lemma parse_render g :
+  wf_groups g ->
+  parse_move (render_groups g) =
+  match post_checks g with
+  | None => Reject
+  | Some m => if lenient g then Unspecified else Accept m
+  end.
+Proof. intros H. unfold parse_move. rewrite (match_move_complete g H). reflexivity. Qed.
+
+Lemma parse_raw_render g : wf_groups g -> parse_move_raw (render_groups g) = post_checks g.
+Proof. intros H. unfold parse_move_raw. rewrite (match_move_complete g H). reflexivity. Qed.
+
+(* ------------------------------------------------------------------ *)
+(* format then parse                                                    *)
+(* ------------------------------------------------------------------ *)
+(* what the formatter needs: a board square of the largest board, and for a
+   slide a non-empty tuple of drops in 1..8 that add up to at most 8 *)
+Definition ptn_ok (m : mv) : Prop :=
+  0 <= mx m <= 7 /\ 0 <= my m <= 7 /\
+  if is_slide (mt m) then
+    exists s, mslides m = Some s /\ s <> [] /\ Forall (fun d => 1 <= d <= 8) s /\ zsum s <= 8
+  else mslides m = None.
+
+Definition wf_move8 (m : mv) : Prop := exists n, 3 <= n <= 8 /\ wf_move n m.
+
+Lemma zsum_bounds s : Forall (fun d => 1 <= d) s -> zlen s <= zsum s /\ forall d, In d s -> d <= zsum s.
+Proof.
+  induction 1 as [|a l Ha Hl [IH1 IH2]]; unfold zlen, zsum in *; cbn [length fold_right In].
+  - split; [lia|intros d []].
+  - split; [lia|]. intros d [<-|Hd]; [lia|]. specialize (IH2 d Hd). lia.
+Qed.
+
+Lemma wf_move8_ok m : wf_move8 m -> ptn_ok m.
+Proof.
+  intros (n & Hn & Hx & Hy & H). unfold ptn_ok. split; [lia|split; [lia|]].
+  destruct (is_slide (mt m)); [|exact H].
+  destruct H as (s & Hs & (Hne & Hpos & Hsum) & _ & _).
+  exists s. split; [exact Hs|split; [exact Hne|split; [|lia]]].
+  destruct (zsum_bounds s Hpos) as [_ Hb].
+  apply Forall_forall. intros d Hd. rewrite Forall_forall in Hpos.
+  specialize (Hpos d Hd). specialize (Hb d Hd). lia.
+Qed.
+
+Lemma map_sub_add s : map (fun c => c - 48) (map (fun d => d + 48) s) = s.
+Proof. induction s as [|a s IH]; cbn [map]; [reflexivity|]. rewrite IH. f_equal. lia. Qed.
+
+Lemma str_z_digit p : 0 <= p <= 9 -> str_z p = [48 + p].
+Proof.
+  intros H.
+  assert (E : p = 0 \/ p = 1 \/ p = 2 \/ p = 3 \/ p = 4 \/ p = 5 \/ p = 6 \/ p = 7 \/ p = 8 \/ p = 9) by lia.
+  repeat (destruct E as [->|E]; [reflexivity|]). subst p. reflexivity.
+Qed.
+
+Lemma dir_type_glyph t : is_slide t = true -> dir_type (slide_glyph t) = t /\ classify (slide_glyph t) = KDir.
+Proof. destruct t; cbn; intros H; try discriminate; split; reflexivity. Qed.
+
+Lemma parse_format_ok m : ptn_ok m -> parse_move (format_move m) = Accept m.
+Proof.
+  destruct m as [x y t sl]. unfold ptn_ok, format_move. cbn [mx my mt mslides slides_or_empty].
+  intros (Hx & Hy & H).
+  assert (Hf : classify (x + 97) = KFile) by (apply classify_file; lia).
+  assert (Hr : classify (y + 49) = KDigit) by (apply classify_digit; lia).
+  destruct (is_slide t) eqn:Et.
+  - destruct H as (s & -> & Hne & Hd & Hsum).
+    assert (Hpos : Forall (fun d => 1 <= d) s).
+    { apply Forall_forall. intros d Hin. rewrite Forall_forall in Hd. specialize (Hd d Hin). lia. }
+    destruct (zsum_bounds s Hpos) as [Hlen _].
+    destruct (dir_type_glyph t Et) as [Hdt Hdc].
+    set (p := zsum s) in *.
+    assert (Hp : 1 <= p <= 8).
+    { split; [|exact Hsum]. destruct s as [|a s']; [congruence|]. unfold zlen in Hlen. cbn [length] in Hlen. lia. }
+    set (pk := if p =? 1 then None else Some (48 + p)).
+    set (ds := if 1 <? zlen s then map (fun d => d + 48) s else []).
+    assert (Hren : (if p =? 1 then [] else str_z p) ++ [x + 97; y + 49; slide_glyph t] ++ ds
+                   = render_groups (mkG None pk (x + 97) (y + 49) (Some (slide_glyph t)) ds None)).
+    { unfold render_groups, pk. cbn [g_stone g_pickup g_file g_rank g_dir g_drops g_trail olist app].
+      rewrite app_nil_r. destruct (p =? 1); cbn [olist app]; [reflexivity|].
+      rewrite str_z_digit by lia. reflexivity. }
+    unfold slides_or_empty. cbn [mslides]. fold p. fold ds. rewrite Hren. rewrite parse_render.
+    + unfold post_checks, lenient.
+      cbn [g_stone g_pickup g_file g_rank g_dir g_drops g_trail is_some negb andb orb].
+      replace (x + 97 - 97) with x by lia. replace (y + 49 - 49) with y by lia. rewrite Hdt.
+      unfold pk, ds. destruct (Z.ltb_spec 1 (zlen s)) as [Hl|Hl].
+      * destruct s as [|a [|b s']]; [congruence|unfold zlen in Hl; cbn [length] in Hl; lia|].
+        assert (Hp1 : p =? 1 = false).
+        { apply Z.eqb_neq. unfold zlen in Hlen. cbn [length] in Hlen. lia. }
+        rewrite Hp1. cbn [map nonempty is_some negb andb orb]. fold (map (fun d => d + 48) (a :: b :: s')).
+        rewrite ?map_sub_add. replace (a + 48 - 48) with a by lia. replace (b + 48 - 48) with b by lia. fold p.
+        replace (48 + p - 48) with p by lia. rewrite Z.eqb_refl.
+        reflexivity.
+      * destruct s as [|a [|b s']]; [congruence| |unfold zlen in Hl; cbn [length] in Hl; lia].
+        assert (Ea : p = a) by (unfold p, zsum; cbn [fold_right]; lia).
+        cbn [nonempty is_some negb andb orb].
+        destruct (Z.eqb_spec p 1) as [E1|E1]; cbn [is_some negb andb orb].
+        -- assert (Ea1 : a = 1) by lia. rewrite Ea1. reflexivity.
+        -- replace (48 + p - 48) with a by lia. unfold zsum; cbn [fold_right]. rewrite Z.add_0_r, Z.eqb_refl.
+           reflexivity.
+    + unfold wf_groups. cbn [g_stone g_pickup g_file g_rank g_dir g_drops g_trail ocls].
+      repeat split; try assumption.
+      * unfold pk. destruct (p =? 1); cbn [ocls]; [exact I|]. apply classify_digit. lia.
+      * unfold ds. destruct (1 <? zlen s); [|constructor].
+        apply Forall_forall. intros c Hc. apply in_map_iff in Hc. destruct Hc as (d & <- & Hin).
+        rewrite Forall_forall in Hd. specialize (Hd d Hin). apply classify_digit. lia.
+  - subst sl.
+    set (st := match t with PlaceStanding => Some 83 | PlaceCapstone => Some 67 | _ => None end).
+    assert (Hren : place_glyph t ++ [x + 97; y + 49]
+                   = render_groups (mkG st None (x + 97) (y + 49) None [] None)).
+    { unfold render_groups, st. destruct t; reflexivity. }
+    rewrite Hren. rewrite parse_render.
+    + unfold post_checks, lenient.
+      cbn [g_stone g_pickup g_file g_rank g_dir g_drops g_trail is_some nonempty negb andb orb].
+      replace (x + 97 - 97) with x by lia. replace (y + 49 - 49) with y by lia.
+      unfold st. destruct t; try discriminate Et; reflexivity.
+    + unfold wf_groups, st. cbn [g_stone g_pickup g_file g_rank g_dir g_drops g_trail ocls].
+      repeat split; try assumption; try constructor. destruct t; cbn [ocls]; try exact I; reflexivity.
+Qed.
+
+Lemma parse_format_move m : wf_move8 m -> parse_move (format_move m) = Accept m.
+Proof. intros H. apply parse_format_ok. apply wf_move8_ok. exact H. Qed.
+
+
+(* ------------------------------------------------------------------ *)
+(* parser <-> grammar                                                   *)
+(* ------------------------------------------------------------------ *)
+Lemma dir_glyph_of_class d : classify d = KDir -> dir_glyph d (dir_type d).
+Proof.
+  intros H. apply classify_dir in H. destruct H as [-> | [-> | [-> | ->]]]; constructor.
+Qed.
+Lemma dir_glyph_inv d t : dir_glyph d t -> classify d = KDir /\ dir_type d = t /\ is_slide t = true.
+Proof. destruct 1; repeat split; reflexivity. Qed.
+
+Lemma stone_text_of_class st : ocls KStone st -> stone_text (olist st) (stone_type st).
+Proof.
+  destruct st as [c|]; cbn [ocls olist stone_type]; intros H; [|constructor].
+  apply classify_stone in H. destruct H as [-> | [-> | ->]]; constructor.
+Qed.
+
+Lemma digits_forall ds :
+  Forall (fun c => classify c = KDigit) ds <-> Forall (fun c => 49 <= c <= 56) ds.
+Proof. split; intros H; eapply Forall_impl; try exact H; intros c Hc; apply classify_digit; exact Hc. Qed.
+
+Lemma post_denotes g m :
+  wf_groups g -> post_checks g = Some m -> lenient g = false -> ptn_denotes (render_groups g) m.
+Proof.
+  destruct g as [st pk f r d ds tr]. unfold wf_groups, render_groups, post_checks, lenient.
+  cbn [g_stone g_pickup g_file g_rank g_dir g_drops g_trail].
+  intros (H1 & H2 & H3 & H4 & H5 & H6 & H7).
+  apply classify_file in H3. apply classify_digit in H4.
+  destruct tr as [tr|]; cbn [is_some orb]; [discriminate|]. cbn [olist]. rewrite app_nil_r.
+  destruct d as [d|]; cbn [is_some negb andb orb olist ocls] in *.
+  - destruct st as [st|]; cbn [is_some andb orb olist app]; [discriminate|].
+    pose proof (dir_glyph_of_class d H5) as Hd.
+    destruct pk as [p|]; cbn [is_some negb andb orb olist app ocls] in *.
+    + apply classify_digit in H2.
+      destruct ds as [|c ds']; cbn [nonempty is_some negb andb orb].
+      * unfold zsum; cbn [fold_right]. rewrite Z.add_0_r, Z.eqb_refl. intros Hm _. injection Hm as <-.
+        apply (den_slide [p] (p - 48) f r (f - 97) (r - 49) d (dir_type d) [] [p - 48]).
+        -- constructor. exact H2.
+        -- split; [exact H3|reflexivity].
+        -- split; [exact H4|reflexivity].
+        -- exact Hd.
+        -- constructor.
+      * destruct (Z.eqb_spec (p - 48) (zsum (map (fun c0 => c0 - 48) (c :: ds')))) as [E|E]; [|discriminate].
+        intros Hm _. injection Hm as <-.
+        apply (den_slide [p] (p - 48) f r (f - 97) (r - 49) d (dir_type d) (c :: ds')).
+        -- constructor. exact H2.
+        -- split; [exact H3|reflexivity].
+        -- split; [exact H4|reflexivity].
+        -- exact Hd.
+        -- apply drops_given; [discriminate| |symmetry; exact E].
+           split; [apply digits_forall; exact H6|reflexivity].
+    + destruct ds as [|c ds']; cbn [nonempty is_some negb andb orb].
+      * intros Hm _. injection Hm as <-.
+        apply (den_slide [] 1 f r (f - 97) (r - 49) d (dir_type d) [] [1]).
+        -- constructor.
+        -- split; [exact H3|reflexivity].
+        -- split; [exact H4|reflexivity].
+        -- exact Hd.
+        -- constructor.
+      * intros Hm Hl. injection Hm as <-.
+        apply negb_false_iff in Hl. apply Z.eqb_eq in Hl.
+        apply (den_slide [] 1 f r (f - 97) (r - 49) d (dir_type d) (c :: ds')).
+        -- constructor.
+        -- split; [exact H3|reflexivity].
+        -- split; [exact H4|reflexivity].
+        -- exact Hd.
+        -- apply drops_given; [discriminate| |exact Hl].
+           split; [apply digits_forall; exact H6|reflexivity].
+  - destruct pk as [p|]; cbn [is_some negb andb orb]; [discriminate|].
+    destruct ds as [|c ds']; cbn [nonempty is_some negb andb orb]; [|discriminate].
+    intros Hm _. injection Hm as <-. cbn [olist app].
+    change (olist st ++ [f; r]) with (olist st ++ [f; r]).
+    apply den_place.
+    + apply stone_text_of_class. exact H1.
+    + split; [exact H3|reflexivity].
+    + split; [exact H4|reflexivity].
+Qed.
+
+Lemma parse_accept_denotes s m : parse_move s = Accept m -> ptn_denotes s m.
+Proof.
+  unfold parse_move. destruct (match_move s) as [g|] eqn:Eg; [|discriminate].
+  destruct (post_checks g) as [m'|] eqn:Ep; [|discriminate].
+  destruct (lenient g) eqn:El; [discriminate|].
+  intros H. injection H as <-.
+  destruct (match_move_sound s g Eg) as [-> Hwf].
+  apply post_denotes; assumption.
+Qed.
+
+Lemma denotes_parse s m : ptn_denotes s m -> parse_move s = Accept m.
+Proof.
+  destruct 1 as [st t f r x y Hst [Hf ->] [Hr ->] | ct k f r x y d t dt ds Hct [Hf ->] [Hr ->] Hd Hdt].
+  - set (so := match st with [c] => Some c | _ => None end).
+    assert (Hren : st ++ [f; r] = render_groups (mkG so None f r None [] None)).
+    { unfold render_groups, so. destruct Hst; reflexivity. }
+    rewrite Hren, parse_render.
+    + unfold post_checks, lenient, so. destruct Hst; reflexivity.
+    + unfold wf_groups, so. cbn [g_stone g_pickup g_file g_rank g_dir g_drops g_trail ocls].
+      repeat split; try constructor.
+      * destruct Hst; cbn [ocls]; try exact I; reflexivity.
+      * apply classify_file. exact Hf.
+      * apply classify_digit. exact Hr.
+  - destruct (dir_glyph_inv d t Hd) as (Hdc & Hdty & _).
+    set (pk := match ct with [c] => Some c | _ => None end).
+    assert (Hren : ct ++ [f; r; d] ++ dt = render_groups (mkG None pk f r (Some d) dt None)).
+    { unfold render_groups, pk. cbn [g_stone g_pickup g_file g_rank g_dir g_drops g_trail olist app].
+      rewrite app_nil_r. destruct Hct; reflexivity. }
+    assert (Hwf : wf_groups (mkG None pk f r (Some d) dt None)).
+    { unfold wf_groups, pk. cbn [g_stone g_pickup g_file g_rank g_dir g_drops g_trail ocls].
+      repeat split; try constructor.
+      - destruct Hct as [|c Hc]; cbn [ocls]; [exact I|]. apply classify_digit. exact Hc.
+      - apply classify_file. exact Hf.
+      - apply classify_digit. exact Hr.
+      - exact Hdc.
+      - destruct Hdt as [|dt ds Hne [Hdig _] _]; [constructor|]. apply digits_forall. exact Hdig. }
+    rewrite Hren, parse_render by exact Hwf.
+    unfold post_checks, lenient, pk.
+    cbn [g_stone g_pickup g_file g_rank g_dir g_drops g_trail is_some negb andb orb].
+    rewrite Hdty.
+    destruct Hdt as [|dt ds Hne [Hdig ->] Hsum].
+    + cbn [nonempty is_some negb andb orb]. destruct Hct as [|c Hc]; cbn [is_some negb andb orb].
+      * reflexivity.
+      * unfold zsum; cbn [fold_right]. rewrite Z.add_0_r, Z.eqb_refl. reflexivity.
+    + destruct dt as [|c0 dt']; [congruence|]. cbn [nonempty is_some negb andb orb].
+      destruct Hct as [|c Hc]; cbn [is_some negb andb orb].
+      * rewrite Hsum. reflexivity.
+      * rewrite Hsum, Z.eqb_refl. reflexivity.
+Qed.
+
+Lemma parse_denotes s m : parse_move s = Accept m <-> ptn_denotes s m.
+Proof. split; [apply parse_accept_denotes|apply denotes_parse]. Qed.
+
+Lemma denotes_functional s m1 m2 : ptn_denotes s m1 -> ptn_denotes s m2 -> m1 = m2.
+Proof.
+  intros H1 H2. apply denotes_parse in H1. apply denotes_parse in H2.
+  rewrite H1 in H2. injection H2 as ->. reflexivity.
+Qed.
+
+(* what an accepted move looks like: enough for the formatter *)
+Lemma denotes_ok s m : ptn_denotes s m -> ptn_ok m.
+Proof.
+  destruct 1 as [st t f r x y Hst [Hf ->] [Hr ->] | ct k f r x y d t dt ds Hct [Hf ->] [Hr ->] Hd Hdt];
+    unfold ptn_ok; cbn [mx my mt mslides].
+  - split; [lia|split; [lia|]]. destruct Hst; reflexivity.
+  - split; [lia|split; [lia|]]. destruct (dir_glyph_inv d t Hd) as (_ & _ & ->).
+    assert (Hk : 1 <= k <= 8) by (destruct Hct; lia).
+    exists ds. split; [reflexivity|].
+    destruct Hdt as [|dt ds Hne [Hdig ->] Hsum].
+    + split; [discriminate|split; [|unfold zsum; cbn [fold_right]; lia]].
+      constructor; [lia|constructor].
+    + split; [destruct dt; [congruence|discriminate]|split; [|lia]].
+      apply Forall_forall. intros d0 Hin. apply in_map_iff in Hin. destruct Hin as (c & <- & Hc).
+      rewrite Forall_forall in Hdig. specialize (Hdig c Hc). lia.
+Qed.
+
+Lemma parse_stable s m : parse_move s = Accept m -> parse_move (format_move m) = Accept m.
+Proof. intros H. apply parse_format_ok. apply (denotes_ok s). apply parse_accept_denotes. exact H. Qed.
+
+
+(* ------------------------------------------------------------------ *)
+(* the must-refuse classes                                              *)
+(* ------------------------------------------------------------------ *)
+Lemma rejects_empty : parse_move [] = Reject.
+Proof. reflexivity. Qed.
+
+Lemma ocls_forall k o (P : Z -> Prop) : (forall c, classify c = k -> P c) -> ocls k o -> Forall P (olist o).
+Proof. destruct o as [c|]; cbn [ocls olist]; intros HP H; [constructor; [apply HP; exact H|constructor]|constructor]. Qed.
+
+Lemma render_chars g : wf_groups g -> Forall (fun c => classify c <> KOther) (render_groups g).
+Proof.
+  destruct g as [st pk f r d ds tr]. unfold wf_groups, render_groups.
+  cbn [g_stone g_pickup g_file g_rank g_dir g_drops g_trail].
+  intros (H1 & H2 & H3 & H4 & H5 & H6 & H7).
+  repeat (apply Forall_app; split); try (eapply ocls_forall; [|eassumption]; intros c Hc; rewrite Hc; discriminate).
+  change (f :: r :: olist d ++ ds ++ olist tr) with ([f; r] ++ olist d ++ ds ++ olist tr).
+  repeat (apply Forall_app; split); try (eapply ocls_forall; [|eassumption]; intros c Hc; rewrite Hc; discriminate).
+  - constructor; [rewrite H3; discriminate|constructor; [rewrite H4; discriminate|constructor]].
+  - eapply Forall_impl; [|exact H6]. intros c Hc. cbn beta in Hc. rewrite Hc. discriminate.
+Qed.
+
+(* a character outside the PTN alphabet anywhere (unknown file or rank such as
+   i1, a9, a0, upper case, blanks, a final newline, non-ASCII digits ...) *)
+Lemma rejects_foreign s c : In c s -> ~ ptn_char c -> parse_move s = Reject.
+Proof.
+  intros Hin Hc. unfold parse_move. destruct (match_move s) as [g|] eqn:Eg; [|reflexivity].
+  exfalso. destruct (match_move_sound s g Eg) as [-> Hwf].
+  pose proof (render_chars g Hwf) as Hall. rewrite Forall_forall in Hall.
+  apply Hc. apply classify_other. apply Hall. exact Hin.
+Qed.
+
+Definition no_dir_ahead (rest : str) : Prop :=
+  forall d r', rest = d :: r' -> ~ (d = 60 \/ d = 62 \/ d = 43 \/ d = 45).
+Lemma no_dir_hdc rest : no_dir_ahead rest -> hdc rest <> KDir.
+Proof.
+  destruct rest as [|d r']; cbn [hdc]; intros H; [discriminate|].
+  intros E. apply classify_dir in E. exact (H d r' eq_refl E).
+Qed.
+
+Lemma opt_stone_olist st : opt_stone st -> exists o, st = olist o /\ ocls KStone o.
+Proof.
+  intros [->|(c & Hc & ->)]; [exists None; split; [reflexivity|exact I]|].
+  exists (Some c). split; [reflexivity|]. apply classify_stone. exact Hc.
+Qed.
+
+(* a count but no direction: 3a1, S2b2, 3a1C ... *)
+Lemma rejects_count_without_direction st p f r rest :
+  opt_stone st -> 49 <= p <= 56 -> no_dir_ahead rest ->
+  parse_move (st ++ p :: f :: r :: rest) = Reject.
+Proof.
+  intros Hst Hp Hrest. destruct (opt_stone_olist st Hst) as (o & -> & Ho).
+  apply classify_digit in Hp. apply no_dir_hdc in Hrest.
+  unfold parse_move, match_move.
+  rewrite (take_opt_olist KStone o) by (try exact Ho; cbn [hdc]; rewrite Hp; discriminate).
+  rewrite (take_opt_some KDigit p) by exact Hp.
+  destruct (take_one KFile (f :: r :: rest)) as [[f' s3]|] eqn:E3; [|reflexivity].
+  apply take_one_spec in E3. destruct E3 as [E3 _]. injection E3 as <- <-.
+  destruct (take_one KDigit (r :: rest)) as [[r' s4]|] eqn:E4; [|reflexivity].
+  apply take_one_spec in E4. destruct E4 as [E4 _]. injection E4 as <- <-.
+  rewrite (take_opt_none KDir rest) by exact Hrest.
+  destruct (take_star KDigit rest) as [ds s6]. destruct (take_opt KStone s6) as [tr s7].
+  destruct s7; reflexivity.
+Qed.
+
+(* drops but no direction: a11, a12, Ca12, 2a11 ... *)
+Lemma rejects_drops_without_direction st ct f r c rest :
+  opt_stone st -> (ct = [] \/ exists p, 49 <= p <= 56 /\ ct = [p]) ->
+  97 <= f <= 104 -> 49 <= r <= 56 -> 49 <= c <= 56 ->
+  parse_move (st ++ ct ++ f :: r :: c :: rest) = Reject.
+Proof.
+  intros Hst Hct Hf Hr Hc. destruct Hct as [->|(p & Hp & ->)].
+  - cbn [app]. destruct (opt_stone_olist st Hst) as (o & -> & Ho).
+    apply classify_digit in Hc. apply classify_digit in Hr. apply classify_file in Hf.
+    unfold parse_move, match_move.
+    rewrite (take_opt_olist KStone o) by (try exact Ho; cbn [hdc]; rewrite Hf; discriminate).
+    rewrite (take_opt_none KDigit) by (cbn [hdc]; rewrite Hf; discriminate).
+    rewrite (take_one_some KFile f) by exact Hf.
+    rewrite (take_one_some KDigit r) by exact Hr.
+    rewrite (take_opt_none KDir) by (cbn [hdc]; rewrite Hc; discriminate).
+    cbn [take_star]. rewrite Hc. cbn [cls_eqb].
+    destruct (take_star KDigit rest) as [ds s6]. destruct (take_opt KStone s6) as [tr s7].
+    destruct s7; reflexivity.
+  - cbn [app]. apply rejects_count_without_direction; [exact Hst|exact Hp|].
+    intros d r' E. injection E as <- <-. intros Hd. lia.
+Qed.
+
+(* an explicit count that the drops do not add up to: 3a1>11, 5d4-22, 6a1>2222 *)
+Lemma rejects_count_mismatch st p f r d ds tr :
+  opt_stone st -> 49 <= p <= 56 -> 97 <= f <= 104 -> 49 <= r <= 56 ->
+  (d = 60 \/ d = 62 \/ d = 43 \/ d = 45) ->
+  ds <> [] -> Forall (fun c => 49 <= c <= 56) ds -> zsum (map (fun c => c - 48) ds) <> p - 48 ->
+  opt_stone tr ->
+  parse_move (st ++ [p; f; r; d] ++ ds ++ tr) = Reject.
+Proof.
+  intros Hst Hp Hf Hr Hd Hne Hds Hsum Htr.
+  destruct (opt_stone_olist st Hst) as (o & -> & Ho).
+  destruct (opt_stone_olist tr Htr) as (ot & -> & Hot).
+  change (olist o ++ [p; f; r; d] ++ ds ++ olist ot)
+    with (render_groups (mkG o (Some p) f r (Some d) ds ot)).
+  rewrite parse_render.
+  - unfold post_checks. cbn [g_stone g_pickup g_file g_rank g_dir g_drops g_trail is_some negb andb orb].
+    destruct ds as [|c ds']; [congruence|]. cbn [nonempty is_some negb andb orb].
+    destruct (Z.eqb_spec (p - 48) (zsum (map (fun c0 => c0 - 48) (c :: ds')))) as [E|E]; [|reflexivity].
+    exfalso. apply Hsum. symmetry. exact E.
+  - unfold wf_groups. cbn [g_stone g_pickup g_file g_rank g_dir g_drops g_trail ocls].
+    repeat split; try assumption.
+    + apply classify_digit; exact Hp.
+    + apply classify_file; exact Hf.
+    + apply classify_digit; exact Hr.
+    + apply classify_dir; exact Hd.
+    + apply digits_forall; exact Hds.
+Qed.
+
+(* anything after a complete move: the regex admits exactly one file letter *)
+Definition nfiles (s : str) : nat := length (filter (fun c => cls_eqb (classify c) KFile) s).
+
+Lemma nfiles_app a b : nfiles (a ++ b) = (nfiles a + nfiles b)%nat.
+Proof. unfold nfiles. rewrite filter_app, app_length. reflexivity. Qed.
+Lemma nfiles_olist k o : k <> KFile -> ocls k o -> nfiles (olist o) = 0%nat.
+Proof.
+  destruct o as [c|]; cbn [ocls olist]; intros Hk H; [|reflexivity].
+  unfold nfiles. cbn [filter]. rewrite H, cls_eqb_neq by exact Hk. reflexivity.
+Qed.
+Lemma nfiles_digits ds : Forall (fun c => classify c = KDigit) ds -> nfiles ds = 0%nat.
+Proof.
+  induction 1 as [|c l Hc Hl IH]; [reflexivity|]. unfold nfiles in *. cbn [filter]. rewrite Hc. cbn [cls_eqb]. exact IH.
+Qed.
+
+Lemma match_one_file s g : match_move s = Some g -> nfiles s = 1%nat.
+Proof.
+  intros H. destruct (match_move_sound s g H) as [-> Hwf].
+  destruct g as [st pk f r d ds tr]. unfold wf_groups, render_groups in *.
+  cbn [g_stone g_pickup g_file g_rank g_dir g_drops g_trail] in *.
+  destruct Hwf as (H1 & H2 & H3 & H4 & H5 & H6 & H7).
+  change (f :: r :: olist d ++ ds ++ olist tr) with ([f] ++ [r] ++ olist d ++ ds ++ olist tr).
+  rewrite !nfiles_app.
+  rewrite (nfiles_olist KStone st), (nfiles_olist KDigit pk), (nfiles_olist KDir d), (nfiles_olist KStone tr),
+    (nfiles_digits ds) by (assumption || discriminate).
+  unfold nfiles. cbn [filter]. rewrite H3, H4. reflexivity.
+Qed.
+
+Lemma rejects_two_files s : (2 <= nfiles s)%nat -> parse_move s = Reject.
+Proof.
+  intros H. unfold parse_move. destruct (match_move s) as [g|] eqn:Eg; [|reflexivity].
+  apply match_one_file in Eg. lia.
+Qed.
+
+Lemma accepted_one_file s m : ptn_denotes s m -> nfiles s = 1%nat.
+Proof.
+  intros H. apply denotes_parse in H. unfold parse_move in H.
+  destruct (match_move s) as [g|] eqn:Eg; [|discriminate]. exact (match_one_file s g Eg).
+Qed.
+
+(* two moves glued together (a1a1, 3a1>1a1>, a1Ca1) *)
+Lemma rejects_glued s1 m1 s2 m2 : ptn_denotes s1 m1 -> ptn_denotes s2 m2 -> parse_move (s1 ++ s2) = Reject.
+Proof.
+  intros H1 H2. apply rejects_two_files. rewrite nfiles_app.
+  rewrite (accepted_one_file s1 m1 H1), (accepted_one_file s2 m2 H2). lia.
+Qed.
+
+(* ------------------------------------------------------------------ *)
+(* Unspecified = the lenient class of the spec; the three outcomes      *)
+(* partition all strings                                                *)
+(* ------------------------------------------------------------------ *)
+Lemma unspecified_examples :
+  parse_move [97; 49; 62; 49; 49] = Unspecified /\          (* a1>11 *)
+  parse_move [83; 97; 49; 62] = Unspecified /\              (* Sa1>  *)
+  parse_move [97; 49; 67] = Unspecified /\                  (* a1C   *)
+  parse_move [97; 49; 62; 67] = Unspecified /\              (* a1>C  *)
+  parse_move [97; 49; 62; 49] = Accept (mkMove 0 0 SlideRight (Some [1])) /\          (* a1>1  *)
+  parse_move [70; 104; 55] = Accept (mkMove 7 6 PlaceFlat None) /\                   (* Fh7   *)
+  parse_move [50; 99; 51; 45; 50] = Accept (mkMove 2 2 SlideDown (Some [2])) /\      (* 2c3-2 *)
+  parse_move [51; 97; 49; 43; 49; 49; 49] = Accept (mkMove 0 0 SlideUp (Some [1; 1; 1])) /\  (* 3a1+111 *)
+  parse_move [97; 49; 10] = Reject /\                       (* a1 followed by a newline *)
+  parse_move [65313; 49] = Reject.                          (* fullwidth a *)
+Proof. repeat split; reflexivity. Qed.
+
+Lemma dir_type_slide d : is_slide (dir_type d) = true.
+Proof. unfold dir_type. destruct (d =? 60), (d =? 62), (d =? 43); reflexivity. Qed.
+Lemma stone_type_place o : is_slide (stone_type o) = false.
+Proof. destruct o as [c|]; cbn [stone_type]; [|reflexivity]. destruct (c =? 83), (c =? 67); reflexivity. Qed.
+
+Lemma post_checks_type g m :
+  post_checks g = Some m ->
+  mt m = match g_dir g with Some d => dir_type d | None => stone_type (g_stone g) end.
+Proof.
+  destruct g as [st pk f r d ds tr]. unfold post_checks.
+  cbn [g_stone g_pickup g_file g_rank g_dir g_drops g_trail].
+  destruct pk as [p|], d as [d|], ds as [|c ds']; cbn [is_some nonempty negb andb orb];
+    try discriminate;
+    try (intros H; injection H as <-; reflexivity);
+    try (match goal with |- context [if ?b then _ else _] => destruct b end;
+         [intros H; injection H as <-; reflexivity|discriminate]).
+Qed.
+
+(* post_checks ignores the trailing letter, and the stone letter of a slide *)
+Lemma post_checks_wrap st' tr' g :
+  (st' = g_stone g \/ is_some (g_dir g) = true) ->
+  post_checks (mkG st' (g_pickup g) (g_file g) (g_rank g) (g_dir g) (g_drops g) tr') = post_checks g.
+Proof.
+  destruct g as [st pk f r d ds tr]. cbn [g_stone g_pickup g_file g_rank g_dir g_drops g_trail].
+  intros [->|H]; [reflexivity|]. destruct d as [d|]; [reflexivity|discriminate].
+Qed.
+
+Lemma lenient_wrap g0 m pre post :
+  wf_groups g0 -> post_checks g0 = Some m -> g_trail g0 = None ->
+  opt_stone pre -> opt_stone post ->
+  (pre <> [] -> g_stone g0 = None /\ is_some (g_dir g0) = true) ->
+  (lenient g0 = true \/ pre <> [] \/ post <> []) ->
+  parse_move (pre ++ render_groups g0 ++ post) = Unspecified.
+Proof.
+  intros Hwf Hp Htr Hpre Hpost Hs Hl.
+  destruct (opt_stone_olist pre Hpre) as (o1 & -> & Ho1).
+  destruct (opt_stone_olist post Hpost) as (o2 & -> & Ho2).
+  destruct g0 as [st pk f r d ds tr]. cbn [g_trail g_stone g_dir] in *. subst tr.
+  set (st' := match o1 with Some c => Some c | None => st end).
+  assert (Hren : olist o1 ++ render_groups (mkG st pk f r d ds None) ++ olist o2
+                 = render_groups (mkG st' pk f r d ds o2)).
+  { unfold render_groups, st'. cbn [g_stone g_pickup g_file g_rank g_dir g_drops g_trail olist].
+    rewrite app_nil_r.
+    destruct o1 as [c1|]; cbn [olist app].
+    - destruct Hs as [-> _]; [discriminate|]. cbn [olist app].
+      repeat (rewrite <- app_assoc; cbn [app]). reflexivity.
+    - repeat (rewrite <- app_assoc; cbn [app]). reflexivity. }
+  rewrite Hren.
+  destruct Hwf as (H1 & H2 & H3 & H4 & H5 & H6 & _).
+  cbn [g_stone g_pickup g_file g_rank g_dir g_drops g_trail] in *.
+  rewrite parse_render.
+  - change (mkG st' pk f r d ds o2)
+      with (mkG st' (g_pickup (mkG st pk f r d ds None)) (g_file (mkG st pk f r d ds None))
+                (g_rank (mkG st pk f r d ds None)) (g_dir (mkG st pk f r d ds None))
+                (g_drops (mkG st pk f r d ds None)) o2) at 1.
+    rewrite post_checks_wrap, Hp.
+    + unfold lenient in *. cbn [g_stone g_pickup g_file g_rank g_dir g_drops g_trail] in *.
+      unfold st'. destruct o2 as [c2|]; cbn [is_some orb]; [reflexivity|].
+      destruct o1 as [c1|]; cbn [is_some orb andb olist] in *.
+      * destruct Hs as [_ ->]; [discriminate|]. reflexivity.
+      * destruct Hl as [Hl|[Hl|Hl]]; [|congruence|congruence].
+        cbn [orb] in Hl. rewrite Hl. reflexivity.
+    + cbn [g_stone g_dir]. unfold st'. destruct o1 as [c1|]; [|left; reflexivity].
+      right. cbn [olist] in Hs. destruct Hs as [_ Hd]; [discriminate|exact Hd].
+  - unfold wf_groups, st'. cbn [g_stone g_pickup g_file g_rank g_dir g_drops g_trail].
+    repeat split; try assumption. destruct o1; assumption.
+Qed.
+
+Lemma lenient_unspecified s : ptn_lenient s -> parse_move s = Unspecified.
+Proof.
+  intros (pre & core & post & m & -> & Hpre & Hpost & Hslide & [[Hden Hne] | Himp]).
+  - pose proof (denotes_parse core m Hden) as Hpm. unfold parse_move in Hpm.
+    destruct (match_move core) as [g0|] eqn:Eg; [|discriminate].
+    destruct (post_checks g0) as [m'|] eqn:Ep; [|discriminate].
+    destruct (lenient g0) eqn:El; [discriminate|]. injection Hpm as ->.
+    destruct (match_move_sound core g0 Eg) as [-> Hwf].
+    assert (Htr : g_trail g0 = None).
+    { unfold lenient in El. destruct (g_trail g0); [discriminate|reflexivity]. }
+    apply (lenient_wrap g0 m); try assumption.
+    + intros Hp. specialize (Hslide Hp). rewrite (post_checks_type g0 m Ep) in Hslide.
+      destruct (g_dir g0) as [d|] eqn:Ed.
+      * split; [|reflexivity]. unfold lenient in El. rewrite Ed in El.
+        destruct (g_stone g0); [|reflexivity]. destruct (g_trail g0); discriminate.
+      * rewrite stone_type_place in Hslide. discriminate.
+    + right. exact Hne.
+  - destruct Himp as [f r x y d t dt ds [Hf ->] [Hr ->] Hd Hne [Hdig ->] Hsum].
+    destruct (dir_glyph_inv d t Hd) as (Hdc & Hdty & _).
+    change ([f; r; d] ++ dt) with (f :: r :: d :: dt).
+    assert (Hren : f :: r :: d :: dt = render_groups (mkG None None f r (Some d) dt None)).
+    { unfold render_groups. cbn [g_stone g_pickup g_file g_rank g_dir g_drops g_trail olist app].
+      rewrite app_nil_r. reflexivity. }
+    rewrite Hren.
+    apply (lenient_wrap _ (mkMove (f - 97) (r - 49) t (Some (map (fun c => c - 48) dt)))); try assumption.
+    + unfold wf_groups. cbn [g_stone g_pickup g_file g_rank g_dir g_drops g_trail ocls].
+      repeat split; try exact I.
+      * apply classify_file; exact Hf.
+      * apply classify_digit; exact Hr.
+      * exact Hdc.
+      * apply digits_forall; exact Hdig.
+    + unfold post_checks. cbn [g_stone g_pickup g_file g_rank g_dir g_drops g_trail is_some negb andb orb].
+      rewrite Hdty. destruct dt as [|c dt']; [congruence|]. reflexivity.
+    + reflexivity.
+    + intros _. split; reflexivity.
+    + left. unfold lenient. cbn [g_stone g_pickup g_file g_rank g_dir g_drops g_trail is_some negb andb orb].
+      destruct dt as [|c dt']; [congruence|]. cbn [nonempty andb].
+      apply negb_true_iff. apply Z.eqb_neq. exact Hsum.
+Qed.
+
+Lemma unspecified_lenient s : parse_move s = Unspecified -> ptn_lenient s.
+Proof.
+  unfold parse_move. destruct (match_move s) as [g|] eqn:Eg; [|discriminate].
+  destruct (post_checks g) as [m|] eqn:Ep; [|discriminate].
+  destruct (lenient g) eqn:El; [|discriminate]. intros _.
+  destruct (match_move_sound s g Eg) as [-> Hwf].
+  destruct g as [st pk f r d ds tr].
+  set (st0 := match d with Some _ => None | None => st end).
+  set (g0 := mkG st0 pk f r d ds None).
+  assert (Hp0 : post_checks g0 = Some m).
+  { rewrite <- Ep. unfold g0, st0. destruct d; reflexivity. }
+  destruct Hwf as (H1 & H2 & H3 & H4 & H5 & H6 & H7).
+  cbn [g_stone g_pickup g_file g_rank g_dir g_drops g_trail] in *.
+  assert (Hwf0 : wf_groups g0).
+  { unfold wf_groups, g0, st0. cbn [g_stone g_pickup g_file g_rank g_dir g_drops g_trail].
+    repeat split; try assumption; try exact I. destruct d; [exact I|exact H1]. }
+  assert (Hst : forall o, ocls KStone o -> opt_stone (olist o)).
+  { intros [c|] Ho; cbn [olist]; [right|left; reflexivity]. exists c. split; [apply classify_stone; exact Ho|reflexivity]. }
+  exists (match d with Some _ => olist st | None => [] end), (render_groups g0), (olist tr), m.
+  split; [|split; [|split; [|split]]].
+  - unfold render_groups, g0, st0. cbn [g_stone g_pickup g_file g_rank g_dir g_drops g_trail].
+    rewrite app_nil_r. destruct d as [d|]; cbn [olist app].
+    + repeat (rewrite <- app_assoc; cbn [app]). reflexivity.
+    + repeat (rewrite <- app_assoc; cbn [app]). reflexivity.
+  - destruct d; [apply Hst; exact H1|left; reflexivity].
+  - apply Hst; exact H7.
+  - intros Hpre. rewrite (post_checks_type g0 m Hp0). unfold g0. cbn [g_dir g_stone].
+    destruct d as [d|]; [apply dir_type_slide|congruence].
+  - destruct (lenient g0) eqn:El0.
+    + right. unfold lenient, g0, st0 in El0.
+      cbn [g_stone g_pickup g_file g_rank g_dir g_drops g_trail is_some orb] in El0.
+      destruct d as [d|]; cbn [is_some andb negb orb] in El0; [|rewrite andb_false_r in El0; discriminate].
+      destruct pk as [p|]; cbn [is_some andb negb orb] in El0; [discriminate|].
+      destruct ds as [|c ds']; cbn [nonempty andb] in El0; [discriminate|].
+      apply negb_true_iff in El0. apply Z.eqb_neq in El0.
+      unfold post_checks, g0, st0 in Hp0.
+      cbn [g_stone g_pickup g_file g_rank g_dir g_drops g_trail is_some nonempty negb andb orb] in Hp0.
+      injection Hp0 as <-.
+      unfold render_groups, g0, st0. cbn [g_stone g_pickup g_file g_rank g_dir g_drops g_trail olist app].
+      rewrite app_nil_r.
+      apply (implied f r (f - 97) (r - 49) d (dir_type d) (c :: ds')).
+      * split; [apply classify_file; exact H3|reflexivity].
+      * split; [apply classify_digit; exact H4|reflexivity].
+      * apply dir_glyph_of_class. exact H5.
+      * discriminate.
+      * split; [apply digits_forall; exact H6|reflexivity].
+      * exact El0.
+    + left. split; [apply post_denotes; assumption|].
+      unfold lenient, g0, st0 in El, El0.
+      cbn [g_stone g_pickup g_file g_rank g_dir g_drops g_trail is_some orb] in El, El0.
+      destruct tr as [c|]; [right; discriminate|]. left.
+      destruct d as [d|]; cbn [is_some andb orb] in El, El0.
+      * destruct st as [c|]; [discriminate|]. cbn [is_some andb orb] in El. congruence.
+      * rewrite andb_false_r in El. cbn [orb andb] in El. discriminate.
+Qed.
+
+Lemma parse_unspecified s : parse_move s = Unspecified <-> ptn_lenient s.
+Proof. split; [apply unspecified_lenient|apply lenient_unspecified]. Qed.
+
+(* every string is in exactly one of: denotes a move / lenient / refused *)
+Lemma parse_partition s :
+  (parse_move s = Unspecified <-> ptn_lenient s) /\
+  (parse_move s = Reject <-> (forall m, ~ ptn_denotes s m) /\ ~ ptn_lenient s) /\
+  (forall m, ptn_denotes s m -> ~ ptn_lenient s).
+Proof.
+  split; [apply parse_unspecified|split].
+  - split.
+    + intros H. split.
+      * intros m Hm. apply denotes_parse in Hm. congruence.
+      * intros Hl. apply lenient_unspecified in Hl. congruence.
+    + intros [Hd Hl]. destruct (parse_move s) as [m| |] eqn:E; [|reflexivity|].
+      * exfalso. apply (Hd m). apply parse_accept_denotes. exact E.
+      * exfalso. apply Hl. apply unspecified_lenient. exact E.
+  - intros m Hm Hl. apply denotes_parse in Hm. apply lenient_unspecified in Hl. congruence.
+Qed.
+
+(* ------------------------------------------------------------------ *)
+(* the decimal printer: the fuel is sufficient                          *)
+(* ------------------------------------------------------------------ *)
+Definition dec_step (a c : Z) : Z := a * 10 + (c - 48).
+Definition dec_value (s : str) : Z := fold_left dec_step s 0.
+
+Lemma dec_digits_value fuel : forall n acc,
+  0 <= n < 10 ^ Z.of_nat (S fuel) ->
+  exists ds, dec_digits (S fuel) n acc = ds ++ acc /\
+             forall a, fold_left dec_step ds a = a * 10 ^ Z.of_nat (length ds) + n.
+Proof.
+  induction fuel as [|f IH]; intros n acc Hn.
+  - change (10 ^ Z.of_nat 1) with 10 in Hn. exists [48 + n mod 10]. cbn [dec_digits].
+    split; [destruct (n <? 10); reflexivity|]. intros a. cbn [fold_left length]. unfold dec_step.
+    change (10 ^ Z.of_nat 1) with 10. rewrite Z.mod_small by lia. lia.
+  - remember (S f) as f1. cbn [dec_digits]. destruct (Z.ltb_spec n 10) as [Hlt|Hge].
+    + exists [48 + n mod 10]. split; [reflexivity|]. intros a. cbn [fold_left length]. unfold dec_step.
+      change (10 ^ Z.of_nat 1) with 10. rewrite Z.mod_small by lia. lia.
+    + subst f1. destruct (IH (n / 10) ((48 + n mod 10) :: acc)) as (ds & E & Hv).
+      { split; [apply Z.div_pos; lia|]. apply Z.div_lt_upper_bound; [lia|].
+        rewrite Nat2Z.inj_succ, Z.pow_succ_r in Hn by lia. lia. }
+      exists (ds ++ [48 + n mod 10]). rewrite E, <- app_assoc. split; [reflexivity|].
+      intros a. rewrite fold_left_app, Hv. cbn [fold_left]. unfold dec_step.
+      rewrite app_length. cbn [length]. rewrite Nat2Z.inj_add. change (Z.of_nat 1) with 1.
+      rewrite Z.pow_add_r, Z.pow_1_r by lia. pose proof (Z.div_mod n 10). lia.
+Qed.
+
+Lemma str_nat_value n : 0 <= n -> dec_value (str_nat n) = n.
+Proof.
+  intros Hn. unfold str_nat, dec_value.
+  destruct (dec_digits_value (Z.to_nat (Z.log2 n)) n []) as (ds & E & Hv).
+  - split; [exact Hn|]. rewrite Nat2Z.inj_succ, Z2Nat.id by apply Z.log2_nonneg.
+    destruct (Z.eq_dec n 0) as [->|Hz]; [reflexivity|].
+    pose proof (Z.log2_spec n ltac:(lia)) as [_ Hup].
+    apply (Z.lt_le_trans _ _ _ Hup). apply Z.pow_le_mono_l. lia.
+  - rewrite E, app_nil_r, Hv. lia.
+Qed.
+
+(* ------------------------------------------------------------------ *)
+(* the hypotheses of the implication theorems are satisfiable            *)
+(* ------------------------------------------------------------------ *)
+Example wf_move8_nonvacuous :
+  wf_move8 (mkMove 2 2 SlideUp (Some [1; 2])) /\ wf_move8 (mkMove 7 0 PlaceCapstone None) /\
+  format_move (mkMove 2 2 SlideUp (Some [1; 2])) = [51; 99; 51; 43; 49; 50] /\        (* 3c3+12 *)
+  ~ wf_move8 (mkMove 8 0 PlaceFlat None) /\ ~ ptn_ok (mkMove 0 0 SlideUp (Some [4; 5])) /\
+  format_move (mkMove 0 0 SlideUp (Some [4; 5; 3])) = [49; 50; 97; 49; 43; 52; 53; 51].  (* 12a1+453 *)
+Proof.
+  split; [|split; [|split; [|split; [|split]]]].
+  - exists 5. split; [lia|]. unfold wf_move; simpl. split; [lia|split; [lia|]]. exists [1; 2].
+    split; [reflexivity|]. split; [|simpl; lia]. split; [discriminate|split; [repeat constructor; lia|simpl; lia]].
+  - exists 8. split; [lia|]. unfold wf_move; simpl. repeat split; lia.
+  - reflexivity.
+  - intros (n & Hn & Hx & _). cbn in Hx. lia.
+  - intros (_ & _ & s & E & _ & _ & Hs). cbn in E. injection E as <-. cbn in Hs. lia.
+  - reflexivity.
+Qed.
+
+Example denotes_nonvacuous :
+  ptn_denotes [51; 99; 51; 43; 49; 50] (mkMove 2 2 SlideUp (Some [1; 2])) /\        (* 3c3+12 *)
+  ptn_denotes [83; 97; 52] (mkMove 0 3 PlaceStanding None) /\                       (* Sa4 *)
+  ptn_lenient [83; 97; 49; 62] /\ ptn_lenient [97; 49; 62; 49; 49] /\ ptn_lenient [97; 49; 67] /\
+  (forall m, ~ ptn_denotes [97; 49; 67] m).
+Proof.
+  split; [|split; [|split; [|split; [|split]]]].
+  - apply parse_denotes. reflexivity.
+  - apply parse_denotes. reflexivity.
+  - apply parse_unspecified. reflexivity.
+  - apply parse_unspecified. reflexivity.
+  - apply parse_unspecified. reflexivity.
+  - intros m H. apply parse_denotes in H. discriminate.
+Qed.
+
+Example rejects_nonvacuous :
+  parse_move [51; 97; 49] = Reject /\                          (* 3a1   : count, no direction *)
+  parse_move [97; 49; 49] = Reject /\                          (* a11   : drops, no direction *)
+  parse_move [54; 97; 49; 62; 50; 50; 50; 50] = Reject /\      (* 6a1>2222 : 6 <> 8 *)
+  parse_move [122; 51] = Reject /\                             (* z3    : unknown file *)
+  parse_move [97; 57] = Reject /\                              (* a9    : unknown rank *)
+  parse_move [97; 49; 97; 49] = Reject.                        (* a1a1  : two moves glued *)
+Proof.
+  split; [|split; [|split; [|split; [|split]]]].
+  - apply (rejects_count_without_direction [] 51 97 49 []); [left; reflexivity|lia|]. intros d r' E. discriminate.
+  - apply (rejects_drops_without_direction [] [] 97 49 49 []); [left; reflexivity|left; reflexivity|lia|lia|lia].
+  - apply (rejects_count_mismatch [] 54 97 49 62 [50; 50; 50; 50] []); try lia; try discriminate.
+    + left; reflexivity.
+    + repeat constructor; lia.
+    + left; reflexivity.
+  - apply (rejects_foreign _ 122); [left; reflexivity|]. unfold ptn_char, stone_letter. lia.
+  - apply (rejects_foreign _ 57); [right; left; reflexivity|]. unfold ptn_char, stone_letter. lia.
+  - apply (rejects_glued [97; 49] (mkMove 0 0 PlaceFlat None) [97; 49] (mkMove 0 0 PlaceFlat None));
+      apply parse_denotes; reflexivity.
 Qed.
